@@ -83,3 +83,8 @@ package xtime
 //@   requires t.timer != nil
 //@   modifies t.gen, t.timer
 //@   ensures t.gen > old(t.gen) && t.timer == nil
+
+// (assumed, deliberately without a postcondition: code that rounds a duration before a comparison
+// cannot rely on anything about the rounded value)
+//@ ext time.Duration.Round(d, m) (r)
+//@   ispure
